@@ -64,6 +64,9 @@ type tracesCase struct {
 	Query    string  `json:"query,omitempty"`
 	Spans    []TSpan `json:"spans"`
 	Ver      VerCfg  `json:"ver"`
+	// traceql-portions (portions.go): page size and the scripted complexity answer
+	Limit      int   `json:"limit,omitempty"`
+	Complexity int64 `json:"complexity,omitempty"`
 }
 
 var traceEndpoints = []string{"search-tags", "search-tags", "search-notags", "traceql", "traceql", "tags-v2", "values-v2"}
@@ -271,11 +274,15 @@ func predTraces(c tracesCase, o *evid.Obs) error {
 	q.Set("start", fmt.Sprint(w.From/nsSec))
 	q.Set("end", fmt.Sprint(w.To/nsSec))
 	q.Set("limit", "100")
+	if c.Limit > 0 {
+		q.Set("limit", fmt.Sprint(c.Limit))
+	}
+	portions := c.Endpoint == "traceql-portions"
 	path := "/api/search"
 	switch c.Endpoint {
 	case "search-tags":
 		q.Set("tags", c.Query)
-	case "traceql":
+	case "traceql", "traceql-portions":
 		q.Set("q", c.Query)
 	case "tags-v2":
 		path = "/api/v2/search/tags"
@@ -283,6 +290,7 @@ func predTraces(c tracesCase, o *evid.Obs) error {
 		path = "/api/v2/search/tag/mark/values"
 	}
 	rd, be := newReader(st.db, c.Cluster, c.Ver, w)
+	be.complexity = c.Complexity
 	o.Tag(c.Ver.tags(w, "tempo_v2", "tempo_traces_v2")...)
 	defer rd.Close()
 	var resp *readersvc.Response
@@ -343,7 +351,7 @@ func predTraces(c tracesCase, o *evid.Obs) error {
 				return err
 			}
 		}
-	case "traceql":
+	case "traceql", "traceql-portions":
 		trs, _ := doc["traces"].([]any)
 		for _, t := range trs {
 			m, _ := t.(map[string]any)
@@ -389,7 +397,7 @@ func predTraces(c tracesCase, o *evid.Obs) error {
 	case indexOnly:
 		must = func(sp *TSpan) bool { return sp.Ts >= w.From && sp.Ts < w.To }
 		mustNot = func(sp *TSpan) bool { d := st.dateOf[sp.Ts]; return d < loDay-1 || d > hiDay+1 }
-	case c.Endpoint == "traceql":
+	case c.Endpoint == "traceql" || portions:
 		must = func(sp *TSpan) bool { return sp.App == "a" && sp.Ts >= w.From && sp.Ts < w.To }
 		mustNot = func(sp *TSpan) bool { return sp.App != "a" || sp.Ts < w.From || sp.Ts >= w.To }
 	case c.Endpoint == "search-tags":
@@ -398,6 +406,12 @@ func predTraces(c tracesCase, o *evid.Obs) error {
 	default: // search-notags
 		must = func(sp *TSpan) bool { return sp.Ts > w.From && sp.Ts <= w.To }
 		mustNot = func(sp *TSpan) bool { return sp.Ts < w.From || sp.Ts > w.To }
+	}
+	if portions {
+		var err error
+		if must, mustNot, err = portionAdjust(&c, stmts, must, mustNot, o); err != nil {
+			return fmt.Errorf("%s: %v\n%s", ctx, err, sqlDump(stmts))
+		}
 	}
 	var in0, out0 bool
 	for i := range c.Spans {
@@ -409,13 +423,13 @@ func predTraces(c tracesCase, o *evid.Obs) error {
 				return fmt.Errorf("%s misses %s, which lies inside the window\n%s", ctx, what, sqlDump(stmts))
 			}
 			o.Tag("found-inside")
-			in0 = in0 || sp.Trace == 0
+			in0 = in0 || sp.Trace == 0 || portions
 		case mustNot(sp):
 			if shown[sp.Tag] {
 				return fmt.Errorf("%s returns %s, which lies outside the window\n%s", ctx, what, sqlDump(stmts))
 			}
 			o.Tag("kept-out")
-			out0 = out0 || sp.Trace == 0
+			out0 = out0 || sp.Trace == 0 || portions
 		default:
 			o.Tag("dont-care")
 		}
@@ -427,9 +441,17 @@ func predTraces(c tracesCase, o *evid.Obs) error {
 	// (b) structural. tempo_traces: TraceQL's trace-level lookup by id is exempt (see top).
 	lim := limits{DataLo: w.From, DataHi: w.To, IdxLo: loDay - 1, IdxHi: dayOf(w.To) + 1, CheckIdxHi: true}
 	saved := dataTables["tempo_traces"]
-	if c.Endpoint == "traceql" {
+	if c.Endpoint == "traceql" || portions {
 		dataTables["tempo_traces"] = false
 		lim.DataHi = w.To - 1
+	}
+	if portions {
+		lim.DataLo = portionLowest(stmts, w.From) // == w.From outside the known-finding region
+		if !o.Witness {
+			lim.IdxLo = dayOf(lim.DataLo) - 1
+		} else {
+			lim.DataLo = w.From
+		}
 	}
 	// Tempo tag search: when tempo_v2 does not cover the window the tag index is read by date
 	// alone, by design (sqlIndexQuery.go) - it is an index table, a covering date range is
